@@ -22,7 +22,8 @@ LEVEL_TEXT = ('Every golden source and 6 generated programs (macros, includes, s
               'chunk emitted for that source line, every MAP line:address entry must name a chunk start in that segment and file, and symbol '
               'values must agree between listing table, MAP symbol section and share file.'
               ' Share files are also written with -h (lower-case hexadecimal); every value of the assembler-format file must be a number in the target\'s syntax.'
-              ' One generated source defines 22 float symbols; the symbol table must show digits of their values.')
+              ' One generated source defines 22 float symbols; the symbol table must show digits of their values.'
+              " Added in the last round: every symbol of the listing's table must be in the MAP file (section NOTHING).")
 LEVEL_NOTE = ('Trusted: hook H3 (guarded by FLAMEWING_ASL_RELEASES_VERIF) as neutral witness, cross-checked against the code file in every run; '
               'listing/MAP/share parsers written from the observed layouts. Sources using retraction (parallel instructions merged into the previous '
               'line) are checked for trace==code file and MAP only.')
